@@ -120,6 +120,20 @@ pub mod ffi {
         pub n: DiplomatOption<u32>,
     }
 
+    /// out-structs that *own* opaque objects (plain and as the error type of a Result)
+    #[diplomat::out]
+    pub struct OutOwned {
+        pub a: Box<Tok>,
+        pub b: Option<Box<Tok>>,
+        pub n: u32,
+    }
+
+    #[diplomat::out]
+    pub struct ErrOut {
+        pub culprit: Box<ErrTok>,
+        pub code: i32,
+    }
+
     pub trait Sink {
         fn put(&self, x: u32) -> u32;
     }
@@ -174,6 +188,18 @@ pub mod ffi {
         pub fn id(&self) -> u32 {
             assert!(self.t.intact());
             self.t.id
+        }
+        pub fn make_owned_pair(some: bool) -> OutOwned {
+            let a = Tok::new();
+            let b = if some { Some(Tok::new()) } else { None };
+            OutOwned { a, b, n: 77 }
+        }
+        pub fn try_new_err_out(ok: bool) -> Result<Box<Tok>, ErrOut> {
+            if ok {
+                Ok(Tok::new())
+            } else {
+                Err(ErrOut { culprit: Box::new(ErrTok { t: Token::new() }), code: -3 })
+            }
         }
         pub fn bump(&mut self) -> u32 {
             self.bumps += 1;
